@@ -40,6 +40,17 @@ def run(res: C.Result):
         p.update(energy_probe=True, criteria="both", calc=["caching", "inplace"][k % 2], fixed=[])
         p["arrays"] = {a: False for a in p["arrays"]}
         cases.append(p)
+    # calculators that compute only what is asked for ('lazy'), and ASE's SumCalculator (a caching calculator that is NOT a subclass of Calculator);
+    # forces and stress looked at before the run.  No evaluation counting for these (the probes themselves ask for forces).
+    r6 = random.Random(res.seed ^ 0xC0461)
+    for k in range(16 if quick else 240):
+        p = progs.gen_program(r6, k, ensembles=("canonical", "isobaric", "hamiltonian", "gc", "isotension", "canonical"))
+        p.update(energy_probe=True, criteria="both", calc=["lazy", "sum"][k % 2], logfile=None, pre_run_probe=(k % 4 < 3))
+        p["arrays"] = {a: False for a in p["arrays"]} | {"momenta": p["ensemble"] == "hamiltonian"}
+        if p["ensemble"] == "gc":
+            p["fixed"] = []
+        p.pop("pre_run_edit", None) if k % 4 < 3 else None
+        cases.append(p)
     outs = C.run_impl_parallel("c04.py", [{"cases": cases[i::16]} for i in range(16)], timeout=3000)
     results = [None] * len(cases)
     for j, o in enumerate(outs):
